@@ -49,7 +49,7 @@ Proof.
     - intros b0 _ Hb. split; [occ | reflexivity].
     - rewrite (inv_self p _ _ _ _ _ Hinv Hux Hix). reflexivity.
     - eapply VR_ctor; eauto; [eapply data_not_codata; eauto | eapply vrels_le; [|exact Hrel]; lia]. }
-  destruct (IH n1 ltac:(lia) s' k lbl _ rho th st next st' _ _ _ (inv_push p _ _ _ _ _ CPrd (CDecl T) Hinv Hux Hix) Hcs Hub Hib E1 Hpf Hlift He' _ _ Hrun Hg) as [m Hm].
+  destruct (IH n1 ltac:(lia) s' k lbl _ rho th st next st' _ _ _ (inv_push p _ _ _ _ _ CPrd (CDecl T) Hinv Hux Hix) Hcs Hub Hib (nc_cut_mu_r _ _ _ _ _ _ _ Hnc) E1 Hpf Hlift He' _ _ Hrun Hg) as [m Hm].
   exists (S m). cbn [arn exec_named shrink_ty ty_name shrink_identifier]. rewrite vars_arn_shrink_rn, Hlk. exact Hm.
 Qed.
 
@@ -82,7 +82,7 @@ Proof.
     - intros b0 _ Hb. split; [occ | reflexivity].
     - rewrite (inv_self p _ _ _ _ _ Hinv Hua Hia). reflexivity.
     - eapply VR_dtor; eauto; [eapply codata_is_codata; eauto | eapply vrels_le; [|exact Hrel]; lia]. }
-  destruct (IH n1 ltac:(lia) s' k lbl _ rho th st next st' _ _ _ (inv_push p _ _ _ _ _ CCns (CDecl T) Hinv Hua Hia) Hcs Hub Hib E1 Hpf Hlift He' _ _ Hrun' Hg) as [m Hm].
+  destruct (IH n1 ltac:(lia) s' k lbl _ rho th st next st' _ _ _ (inv_push p _ _ _ _ _ CCns (CDecl T) Hinv Hua Hia) Hcs Hub Hib (nc_cut_mu_l _ _ _ _ _ _ _ Hnc) E1 Hpf Hlift He' _ _ Hrun' Hg) as [m Hm].
   exists (S m). cbn [arn exec_named shrink_ty ty_name shrink_identifier]. rewrite vars_arn_shrink_rn, Hlk. exact Hm.
 Qed.
 
